@@ -7,7 +7,7 @@ EXPLANATION = ('Value-flow normal form of <MHMarkovChain as MarkovChain>::step (
                'candidate from one Proposal::sample on the pre-step state, acceptance condition '
                'p(y)+q(y->x)-p(x)-q(x->y)-ln(u) > 0 (strict), u one StandardUniform draw from the chain generator, '
                'single conditional store of y into the state, returned reference is the state.')
-FLOORS = {'obligations': 19}   # counted on the reference tree; fewer instantiated obligations is reported, never passed silently
+FLOORS = {'obligations': 20}   # counted on the reference tree; fewer instantiated obligations is reported, never passed silently
 TECHNIQUE = 'value-flow normal form vs specification table'
 
 A = '<MHMarkovChain as MarkovChain>::step'
@@ -26,6 +26,9 @@ def frame_rules(ctx):
 
 def run(ctx):
     frame_rules(ctx)
+    b0 = ctx.anchor(A, name='step', trait='core::MarkovChain', self_head='metropolis_hastings::MHMarkovChain')
+    if b0 is not None:
+        narrowing_budget(ctx, 'C01', A, [b0], {}, why='a conversion to a fixed narrower float type (or an f64 -> element-type read-back) on this path changes values for wider element types / back ends', sp=b0['sp'])
     b = ctx.anchor(A, name='step', trait='core::MarkovChain', self_head='metropolis_hastings::MHMarkovChain')
     if b is None:
         for o in ('C01.sample', 'C01.ratio', 'C01.draw', 'C01.store', 'C01.ret'):
